@@ -25,7 +25,7 @@ def cases(rng, tier):
     for i in range(2 * n):
         cosmology = ["FLCDM", "oLCDM", "oLCDM", "FwCDM"][i % 4]
         names = dict(FLCDM=["h0", "om"], oLCDM=["h0", "om", "ok"], FwCDM=["h0", "om", "w"])[cosmology]
-        lo = dict(h0=0.0, om=0.05, ok=-0.9, w=-2.0); hi = dict(h0=150.0, om=0.9, ok=0.6, w=0.0)
+        lo = dict(h0=10.0, om=0.05, ok=-0.9, w=-2.0); hi = dict(h0=150.0, om=0.9, ok=0.6, w=-0.3)      # (h0 = 0 exactly makes astropy raise: a degenerate edge, not hierArc)
         lenses = [dict(z_lens=float(dec(rng, 0.3, 0.7)), z_source=float(dec(rng, 1.0, 4.0)), likelihood_type="DdtGaussian", ddt_mean=4000.0, ddt_sigma=300.0)
                   for _ in range(1 + i % 2)]
         if i % 5 == 3:
